@@ -60,7 +60,11 @@ func runC09(w *World) {
 			body = w.RandBytes(w.Range(0, 1, "shortlen"), "notif")
 			w.Probe("short-notification-body")
 		} else {
-			body = append([]byte{byte(w.Draw(256, "code")), byte(w.Draw(256, "sub"))}, w.RandBytes(w.Range(0, 50, "datalen"), "data")...)
+			dl := w.Range(0, 50, "datalen")
+			if w.Chance(1, 10, "maxnotif") {
+				dl = 4075
+			}
+			body = append([]byte{byte(w.Draw(256, "code")), byte(w.Draw(256, "sub"))}, w.RandBytes(dl, "data")...)
 		}
 		sent = MkFrame(MsgNotification, body)
 	case 3:
